@@ -34,6 +34,7 @@ type Engine struct {
 	msUnit      *Unit
 	keyInfos    map[string]keyInfo
 	tparams     map[string]types.Type // type parameter names of the function being verified
+	frameSet    map[string]bool        // functions whose frame is checked by their own unit in this run
 }
 
 type implInfo struct {
@@ -589,6 +590,66 @@ func (e *Engine) computeModsets() {
 	}
 }
 
+type ssaFunc = ssa.Function
+
+// unwrapSynthetic: promoted-method wrappers and thunks forward to one real method
+func unwrapSynthetic(f *ssa.Function) *ssa.Function {
+	for i := 0; i < 4 && f != nil && f.Synthetic != "" && !strings.Contains(f.Synthetic, "instance"); i++ {
+		var target *ssa.Function
+		n := 0
+		for _, b := range f.Blocks {
+			for _, in := range b.Instrs {
+				if c, ok := in.(ssa.CallInstruction); ok {
+					if callee := c.Common().StaticCallee(); callee != nil {
+						target = callee
+						n++
+					}
+				}
+			}
+		}
+		if n != 1 {
+			return f
+		}
+		f = target
+	}
+	return f
+}
+
+func (e *Engine) inFrameSet(f *ssa.Function) bool {
+	if e.frameSet[fnKey(f)] {
+		return true
+	}
+	if g := unwrapSynthetic(f); g != f && g != nil {
+		return e.frameSet[fnKey(g)]
+	}
+	return false
+}
+
+// calleesOf: static callees, closures and all implementations of invoked interface methods
+func (e *Engine) calleesOf(f *ssa.Function) []*ssa.Function {
+	var out []*ssa.Function
+	for _, b := range f.Blocks {
+		for _, in := range b.Instrs {
+			switch x := in.(type) {
+			case *ssa.MakeClosure:
+				if cf, ok := x.Fn.(*ssa.Function); ok {
+					out = append(out, cf)
+				}
+			case ssa.CallInstruction:
+				c := x.Common()
+				if c.IsInvoke() {
+					for _, impl := range e.implementations(c.Value.Type(), c.Method) {
+						out = append(out, impl.fn)
+					}
+				} else if callee := c.StaticCallee(); callee != nil {
+					out = append(out, callee)
+				}
+			}
+		}
+	}
+	return out
+}
+
 func (e *Engine) isOwnFunc(f *ssa.Function) bool {
 	for q := f; q != nil; q = q.Parent() {
 		p := q.Pkg
@@ -830,11 +891,13 @@ func (e *Engine) verify(fn *ssa.Function, opts VerifyOpts) (u *Unit) {
 	}
 	if opts.Frame {
 		u.checkFrame = true
+		u.frameMode = true
 	}
 	// preconditions
 	env := fr.baseEnv()
 	if !opts.SweepOnly || true {
-		if ct != nil {
+		if ct != nil && !opts.Frame {
+			// frame mode judges every path of the function: property-specific preconditions are not assumed
 			for _, r := range ct.Requires {
 				u.fact(fr.evalBool(r, env, st, st))
 			}
@@ -866,6 +929,9 @@ func (e *Engine) verify(fn *ssa.Function, opts VerifyOpts) (u *Unit) {
 	exit, results := fr.runTop(st)
 	if exit.dead {
 		return u
+	}
+	if u.frameMode {
+		fr.autoFreshErrPost(exit, results)
 	}
 	if opts.SweepOnly {
 		return u
@@ -949,7 +1015,7 @@ func (fr *Frame) setupAssignable(ct *Contract, st *State) {
 		case "index":
 			base = a.args[0]
 		default:
-			evalFail("assigns: unsupported location %q", a.src)
+			base = a
 		}
 		v := fr.eval(base, env, st, st)
 		refs = append(refs, fr.refOf(v))
@@ -1031,7 +1097,7 @@ func (fr *Frame) applyContract(ct *Contract, callee *ssa.Function, recv *Val, ar
 					u.fact(f)
 				}
 				if u.checkFrame {
-					fr.frameCheckRef(st, ad.Ref, "assigns of "+shortKey(key), pos)
+					fr.frameCheckRef(st, ad.Ref, "assigns."+shortKey(key), pos)
 				}
 				u.storeAddr(st, &nad, nv)
 			case "un":
@@ -1046,13 +1112,31 @@ func (fr *Frame) applyContract(ct *Contract, callee *ssa.Function, recv *Val, ar
 					u.fact(f)
 				}
 				if u.checkFrame {
-					fr.frameCheckRef(st, ad.Ref, "assigns of "+shortKey(key), pos)
+					fr.frameCheckRef(st, ad.Ref, "assigns."+shortKey(key), pos)
 				}
 				u.storeAddr(st, ad, nv)
 			default:
-				evalFail("assigns: unsupported location %q", a.src)
+				bv := fr.eval(a, env, st, st)
+				mt, ok := bv.Ty.Underlying().(*types.Map)
+				if !ok {
+					evalFail("assigns: unsupported location %q", a.src)
+				}
+				if u.checkFrame {
+					fr.frameCheckRef(st, bv.T, "assigns."+shortKey(key), pos)
+				}
+				kd, kv, kl := u.regM(mt)
+				ks, vs := u.w.sortOf(mt.Key()), u.w.sortOf(mt.Elem())
+				nd := u.w.newConst("assignedDom", fmt.Sprintf("(Array %s Bool)", ks))
+				nv := u.w.newConst("assignedVal", fmt.Sprintf("(Array %s %s)", ks, vs))
+				nl := u.w.newConst("assignedLen", "Int")
+				u.fact(fmt.Sprintf("(>= %s 0)", nl))
+				st.heap[kd] = u.nameHeap(kd, fmt.Sprintf("(store %s %s %s)", u.heapOf(st, kd), bv.T, nd))
+				st.heap[kv] = u.nameHeap(kv, fmt.Sprintf("(store %s %s %s)", u.heapOf(st, kv), bv.T, nv))
+				st.heap[kl] = u.nameHeap(kl, fmt.Sprintf("(store %s %s %s)", u.heapOf(st, kl), bv.T, nl))
 			}
 		}
+	} else if u.eng.frameSet[key] || (callee == nil && u.eng.ifaceImplsInFrameSet(ct)) {
+		// the callee's own unit checks its frame in this run: allocation only here
 	} else {
 		var ks []string
 		for k := range ms.keys {
@@ -1110,6 +1194,41 @@ func (fr *Frame) applyContract(ct *Contract, callee *ssa.Function, recv *Val, ar
 	return res
 }
 
+// all implementations (in the analysed packages) of the interface method of contract ct have their frame
+// checked by their own unit in this run
+func (e *Engine) ifaceImplsInFrameSet(ct *Contract) bool {
+	if len(e.frameSet) == 0 {
+		return false
+	}
+	parts := strings.Split(ct.Key, ".")
+	if len(parts) != 3 {
+		return false
+	}
+	p := e.tpkgs[parts[0]]
+	if p == nil {
+		return false
+	}
+	obj := p.Scope().Lookup(parts[1])
+	if obj == nil {
+		return false
+	}
+	iface, ok := obj.Type().Underlying().(*types.Interface)
+	if !ok {
+		return false
+	}
+	for i := 0; i < iface.NumMethods(); i++ {
+		if iface.Method(i).Name() == parts[2] {
+			for _, impl := range e.implementations(obj.Type(), iface.Method(i)) {
+				if !e.inFrameSet(impl.fn) {
+					return false
+				}
+			}
+			return true
+		}
+	}
+	return false
+}
+
 func (e *Engine) ifaceModset(u *Unit, ct *Contract) *modset {
 	ms := &modset{keys: map[string]bool{}, ghosts: map[string]bool{}}
 	parts := strings.Split(ct.Key, ".")
@@ -1151,3 +1270,101 @@ func (e *Engine) ifaceModset(u *Unit, ct *Contract) *modset {
 }
 
 var _ = ast.NewIdent
+
+// ---------------------------------------------------------------------------------------------
+// frame mode: constraint errors travel upwards and get path segments prepended. The automatic rule:
+// the first *ConstraintError of an error result was allocated during the call, or is the one of an error
+// parameter. Checked for every function of the frame set, assumed at calls to them.
+// ---------------------------------------------------------------------------------------------
+
+func isErrorType(t types.Type) bool {
+	n, ok := t.(*types.Named)
+	return ok && n.Obj().Pkg() == nil && n.Obj().Name() == "error"
+}
+
+func (fr *Frame) ceOfTerm(x string) (ok string, val string) {
+	u := fr.u
+	okf := u.fn("as_ce_ok", []string{"Iface"}, "Bool")
+	valf := u.fn("as_ce_val", []string{"Iface"}, "Ref")
+	_, ub := u.w.boxFn("Ref")
+	ck := "asce:" + x
+	if !u.frameDone[ck] {
+		u.frameDone[ck] = true
+		u.fact(implies(fmt.Sprintf("(= (ityp %s) T_nil)", x), not(app(okf, x))))
+		u.fact(implies(fmt.Sprintf("(= (ityp %s) %s)", x, u.ceTag()), and(app(okf, x), eq(app(valf, x), fmt.Sprintf("(%s (ival %s))", ub, x)))))
+		u.fact(implies(app(okf, x), fmt.Sprintf("(distinct %s nil)", app(valf, x))))
+	}
+	return app(okf, x), app(valf, x)
+}
+
+func (fr *Frame) freshErrFormula(res string, base string, errArgs []string) string {
+	ok, val := fr.ceOfTerm(res)
+	alts := []string{not(ok), fmt.Sprintf("(>= (birth %s) %s)", val, base)}
+	for _, a := range errArgs {
+		if strings.HasPrefix(a, "ref:") {
+			alts = append(alts, eq(val, strings.TrimPrefix(a, "ref:")))
+			continue
+		}
+		aok, aval := fr.ceOfTerm(a)
+		alts = append(alts, and(aok, eq(val, aval)))
+	}
+	return or(alts...)
+}
+
+func (fr *Frame) isCEPtr(t types.Type) bool {
+	cet := fr.u.eng.ceType()
+	pt, ok := t.(*types.Pointer)
+	return ok && cet != nil && types.Identical(pt.Elem(), cet)
+}
+
+func (fr *Frame) autoFreshErrPost(exit *State, results []*Val) {
+	u := fr.u
+	if exit.dead || fr.u.eng.contracts == nil {
+		return
+	}
+	if u.eng.ceType() == nil {
+		return
+	}
+	var errArgs []string
+	for _, p := range fr.fn.Params {
+		if isErrorType(p.Type()) {
+			errArgs = append(errArgs, fr.vals[p].T)
+		} else if fr.isCEPtr(p.Type()) {
+			errArgs = append(errArgs, "ref:"+fr.vals[p].T)
+		}
+	}
+	sig := fr.fn.Signature.Results()
+	for i, r := range results {
+		if i < sig.Len() && isErrorType(sig.At(i).Type()) && r.K == vTerm {
+			u.oblige(nil, exit.clone(), "frame", "fresherr", fr.freshErrFormula(r.T, u.entryNow, errArgs), token.NoPos, "a returned constraint error was allocated by this call (or is the one passed in)")
+		}
+	}
+}
+
+// assumeFreshErr: after a call in frame mode
+func (fr *Frame) assumeFreshErr(st *State, base string, res *Val, resTy types.Type, args []*Val, trusted bool) {
+	u := fr.u
+	if !u.frameMode || res == nil || u.eng.ceType() == nil || !trusted {
+		return
+	}
+	var errArgs []string
+	for _, a := range args {
+		if a != nil && a.K == vTerm && a.Ty != nil && isErrorType(a.Ty) {
+			errArgs = append(errArgs, a.T)
+		} else if a != nil && a.K == vTerm && a.Ty != nil && fr.isCEPtr(a.Ty) {
+			errArgs = append(errArgs, "ref:"+a.T)
+		}
+	}
+	var rl []*Val
+	switch res.K {
+	case vTuple:
+		rl = res.Elems
+	case vTerm:
+		rl = []*Val{res}
+	}
+	for _, r := range rl {
+		if r.K == vTerm && r.Ty != nil && isErrorType(r.Ty) {
+			u.fact(implies(st.pc, fr.freshErrFormula(r.T, base, errArgs)))
+		}
+	}
+}
